@@ -6,6 +6,7 @@
 extern "C" __attribute__((used)) const char *__asan_default_options() { return "exitcode=77:detect_leaks=0:abort_on_error=0:allocator_may_return_null=1"; }
 extern "C" __attribute__((used)) const char *__ubsan_default_options() { return "halt_on_error=1:exitcode=77:print_stacktrace=1"; }
 
+namespace eng { int alloc_triage(); }
 static int usage() {
 	fprintf(stderr, "usage: ksisim check <property> quick|thorough | replay <file> | run-one <engine> <property> <seed> [tier] [--trace] | selftest [what]\n");
 	return 2;
@@ -23,6 +24,8 @@ int main(int argc, char **argv) {
 		return run::cmd_run_one(argv[2], argv[3], strtoull(argv[4], nullptr, 0), tier, trace);
 	}
 	if (cmd == "find" && argc >= 7) return run::cmd_find(argv[2], argv[3], argv[4], argv[5], strtoull(argv[6], nullptr, 0));
+	if (cmd == "run-at" && argc >= 5) return run::cmd_run_at(argv[2], argv[3], strtoull(argv[4], nullptr, 0));
+	if (cmd == "alloc-triage") return eng::alloc_triage();
 	if (cmd == "selftest") return run::cmd_selftest(argc >= 3 ? argv[2] : "all");
 	return usage();
 }
